@@ -98,6 +98,18 @@ def fateThenOperatorsG (me n honest : Nat) (myKey : Option String) (ev : Option 
   | .error e => .err e
   | .ok ids => resolveGroupOperators sel ids n honest
 
+/-- the tail of `ExecuteDKG` after GJKR: `operatingMemberIndexes` starts as the member's local
+    operating view; when the publication failed it is REPLACED by the fate decision (or the
+    member leaves with the fate's error); then the operators are resolved. -/
+def executeDkgTail (publishOk : Bool) (me n honest : Nat) (myKey : Option String)
+    (ev : Option Event) (sel : List String) (localIA localDQ : List Nat) : Res :=
+  let g : Group := ⟨members n, localIA, localDQ⟩
+  if publishOk then resolveGroupOperators sel g.operating n honest
+  else
+    match decideMemberFateG me myKey g ev with
+    | .error e => .err e
+    | .ok ids => resolveGroupOperators sel ids n honest
+
 /-! ## Monitor: the property stated directly (no sort, no intermediate id list) -/
 
 /-- selected operators of the non-misbehaving members, in member-index order -/
